@@ -10,13 +10,22 @@ import (
 // contents, update2 notifications without transaction ids. Behind the proxy in since mode it looks like a
 // server that remembers transactions:
 //   - every update2 notification of a monitor_cond_since monitor goes out as update3 with a fresh id;
-//   - a monitor_cond_since request that quotes the id the proxy issued last for that monitor (the client has
-//     seen everything sent) is answered with found = true, a new id, and the difference between what the
-//     client holds and the contents now - as deletes of every row the client holds in the reply, followed by
-//     an update3 notification inserting the rows as they are now (the net effect of any minimal difference);
+//   - a monitor_cond_since request that quotes an id the proxy issued for that monitor since it last sent the
+//     contents in full is answered with found = true and no rows; what happened after that id follows as update3
+//     notifications: those sent since then as they were (a client that saw them already and quotes an older id
+//     gets them again), then what changed while no monitor was registered, as deletes of the rows gone or
+//     different and inserts of the rows as they are now;
 //   - any other id is unknown: found = false, the whole contents, a fresh id.
 
+type sinceEntry struct {
+	id      string
+	updates json.RawMessage                       // the update2 body that went out under that id
+	rows    map[string]map[string]json.RawMessage // what the client holds after it
+}
+
 type sinceMon struct {
+	log  []sinceEntry                          // the notifications sent since the contents were last sent in full
+	base string                                // the id under which the contents were last sent in full
 	last string                                // the id issued last
 	rows map[string]map[string]json.RawMessage // table -> uuid -> the row the client holds (nil: modified since, contents not tracked)
 }
@@ -80,6 +89,17 @@ func noteRows(m *sinceMon, updates json.RawMessage, reset bool) map[string]map[s
 	return tu
 }
 
+func copyRows(rows map[string]map[string]json.RawMessage) map[string]map[string]json.RawMessage {
+	out := map[string]map[string]json.RawMessage{}
+	for t, us := range rows {
+		out[t] = map[string]json.RawMessage{}
+		for u, r := range us {
+			out[t][u] = r
+		}
+	}
+	return out
+}
+
 func sameJSON(a, b json.RawMessage) bool {
 	if a == nil || b == nil {
 		return false
@@ -130,6 +150,7 @@ func (p *Proxy) sinceRewrite(dir string, raw json.RawMessage) (json.RawMessage, 
 		}
 		p.groupMons[string(params[0])] = true
 		m.last = p.groupID
+		m.log = append(m.log, sinceEntry{id: m.last, updates: params[1], rows: copyRows(m.rows)})
 		idj, _ := json.Marshal(m.last)
 		np, _ := json.Marshal([]json.RawMessage{params[0], idj, params[1]})
 		msg["method"] = json.RawMessage(`"update3"`)
@@ -152,11 +173,36 @@ func (p *Proxy) sinceRewrite(dir string, raw json.RawMessage) (json.RawMessage, 
 		return raw, nil
 	}
 	m := p.sinceMons[req.mon]
-	if m != nil && req.last != zeroID && req.last != "" && req.last == m.last {
-		// the server knows that transaction: the difference only
+	known := -2
+	if m != nil && req.last != zeroID && req.last != "" {
+		if req.last == m.base {
+			known = -1
+		}
+		for i, e := range m.log {
+			if e.id == req.last {
+				known = i
+			}
+		}
+	}
+	if known > -2 {
+		// the server knows that transaction: found = true, and everything that happened after it follows - the
+		// notifications sent since then as they were (with their ids), then what changed while no monitor was
+		// registered, as deletes of the rows that are gone or different and inserts of the rows as they are now
+		// (unchanged rows are left out, as in any minimal difference)
 		p.SinceFound++
-		// rows the client holds and that are the same now are left out; every other row it holds is deleted
-		// in the reply and, if it still exists, inserted again by the notification that follows
+		var follow []byte
+		add := func(id string, updates json.RawMessage) {
+			idj, _ := json.Marshal(id)
+			params, _ := json.Marshal([]json.RawMessage{json.RawMessage(req.mon), idj, updates})
+			msg, _ := json.Marshal(map[string]json.RawMessage{"id": json.RawMessage("null"), "method": json.RawMessage(`"update3"`), "params": params})
+			if follow != nil {
+				follow = append(follow, '\n')
+			}
+			follow = append(follow, msg...)
+		}
+		for _, e := range m.log[known+1:] {
+			add(e.id, e.updates)
+		}
 		var fresh map[string]map[string]map[string]json.RawMessage
 		_ = json.Unmarshal(result[2], &fresh)
 		deletes := map[string]map[string]map[string]interface{}{}
@@ -188,19 +234,20 @@ func (p *Proxy) sinceRewrite(dir string, raw json.RawMessage) (json.RawMessage, 
 				inserts[t][u] = map[string]json.RawMessage{"insert": row}
 			}
 		}
-		noteRows(m, result[2], true)
-		id1 := p.freshID()
-		id1j, _ := json.Marshal(id1)
-		dj, _ := json.Marshal(deletes)
-		res, _ := json.Marshal([]json.RawMessage{json.RawMessage("true"), id1j, dj})
+		for _, part := range []interface{}{deletes, inserts} {
+			pj, _ := json.Marshal(part)
+			if string(pj) == "{}" {
+				continue
+			}
+			noteRows(m, pj, false)
+			m.last = p.freshID()
+			m.log = append(m.log, sinceEntry{id: m.last, updates: pj, rows: copyRows(m.rows)})
+			add(m.last, pj)
+		}
+		lastj, _ := json.Marshal(req.last)
+		res, _ := json.Marshal([]json.RawMessage{json.RawMessage("true"), lastj, json.RawMessage("{}")})
 		msg["result"] = res
 		out, _ := json.Marshal(msg)
-		m.last = p.freshID()
-		id2j, _ := json.Marshal(m.last)
-		ij, _ := json.Marshal(inserts)
-		monid := json.RawMessage(req.mon)
-		params, _ := json.Marshal([]json.RawMessage{monid, id2j, ij})
-		follow, _ := json.Marshal(map[string]json.RawMessage{"id": json.RawMessage("null"), "method": json.RawMessage(`"update3"`), "params": params})
 		return out, follow
 	}
 	// unknown (or no) transaction: everything, under a fresh id
@@ -210,6 +257,7 @@ func (p *Proxy) sinceRewrite(dir string, raw json.RawMessage) (json.RawMessage, 
 	}
 	noteRows(m, result[2], true)
 	m.last = p.freshID()
+	m.base, m.log = m.last, nil
 	idj, _ := json.Marshal(m.last)
 	res, _ := json.Marshal([]json.RawMessage{json.RawMessage("false"), idj, result[2]})
 	msg["result"] = res
